@@ -33,6 +33,16 @@ int main(int argc, char **argv) {
 '''
 
 
+def run_retry(cmd, timeouts):
+    """subprocess.run with escalating time limits (the last one is final and raises)."""
+    for k, t in enumerate(timeouts):
+        try:
+            return subprocess.run(cmd, capture_output=True, text=True, timeout=t)
+        except subprocess.TimeoutExpired:
+            if k == len(timeouts) - 1:
+                raise
+
+
 def do_job(job):
     from bitproto.parser import parse
     from bitproto.renderer import render
@@ -60,13 +70,13 @@ def do_job(job):
     exe = os.path.join(d, "fwd")
     cmd = ["gcc", "-O1", "-w", "-I", os.path.join(repo, "lib/c"), "-I", d, "-o", exe,
            os.path.join(d, "driver.c"), os.path.join(repo, "lib/c/bitproto.c")] + cfiles
-    p = subprocess.run(cmd, capture_output=True, text=True, timeout=120)
+    p = run_retry(cmd, (120, 900))          # a loaded machine must not turn a slow gcc into an alarm
     if p.returncode != 0:
         res["gcc_error"] = p.stderr[-800:]
         return res
     outs = []
     for i in range(0, len(job["bufs"]), 20):
-        q = subprocess.run([exe] + job["bufs"][i:i + 20], capture_output=True, text=True, timeout=60)
+        q = run_retry([exe] + job["bufs"][i:i + 20], (60, 600))
         if q.returncode != 0:
             res["run_error"] = f"rc={q.returncode} {q.stderr[-300:]}"
             return res
